@@ -1,8 +1,23 @@
-"""C24 — bounded run-time contract check (see checks/C24_bounded.py for the contract and scope); proof kernel: see DESIGN §5 C24."""
-from vlib.thin import run_bounded_only
+"""C24 — pooled connections carry no state from a previous checkout: the reset path under proof
+(_ConnectionFairy._reset, DefaultDialect.reset_isolation_level), histories on a fake DBAPI as the bounded complement."""
+import importlib
+import contracts.pool_reset  # noqa: F401
+from pyvc.contract import FUNCS
+from vlib.proof import run_proofs
+from vlib.bounded import run_bounded
 
-LEVEL = "exploration"
+LEVEL = "proof"
+KEYS = [k for k, c in FUNCS.items() if "C24" in c.props and c.proof and not c.abstract]
 
 
 def run(run, tier, seed, args):
-    run_bounded_only(run, "C24", tier, seed)
+    run_proofs(run, KEYS, tier, update_baseline=args.update_baseline, source_root=args.source_root)
+    if not args.source_root:
+        run_bounded(run, [k for k in KEYS if FUNCS[k].harness], tier)
+        importlib.import_module("checks.C24_bounded").bounded(run, tier, seed)
+    run.assumptions += [
+        "assumed driver contracts: do_rollback / do_commit end the transaction or raise; _assert_and_set_isolation_level sets the level or raises",
+        "event listeners (pool.dispatch.reset) and logging do not touch the ghost state",
+        "_finalize_fairy, _ConnectionRecord.checkin and Connection.close (the call site that passes transaction_reset=True) are covered by the bounded complement only",
+        "server-side session state on real backends and GC timing are outside",
+    ]
